@@ -989,6 +989,16 @@ static bool updated_gens_divisor_ne_1(const Grid& before, bool minimized) {
   GP c(clone(before));
   try { return gens_divisor_ne_1(minimized ? c->minimized_grid_generators() : c->grid_generators()); } catch (...) { return false; }
 }
+// generators as relation_with(Congruence) will scan them: does a parameter come before the first point?
+static bool param_precedes_first_point(const Grid& before) {
+  if (before.space_dim == 0 || before.status.test_empty()) return false;
+  GP c(clone(before));
+  try {
+    const PPL::Grid_Generator_System& gs = c->grid_generators();
+    for (PPL::Grid_Generator_System::const_iterator i = gs.begin(), e = gs.end(); i != e; ++i) { if (i->is_point()) return false; if (i->is_parameter()) return true; }
+  } catch (...) {}
+  return false;
+}
 static bool name_is(const std::string& n, const char* pfx) { return n.compare(0, strlen(pfx), pfx) == 0; }
 static bool expr_b_nonzero(const std::string& es) { for (size_t i = 0; i < EM.size(); ++i) if (EM[i].str() == es) return EM[i].b != 0; return false; }
 static const LE* expr_named(const std::string& es) { for (size_t i = 0; i < EM.size(); ++i) if (EM[i].str() == es) return &EM[i]; return 0; }
@@ -996,6 +1006,12 @@ static bool unmarked_empty(const Grid& before, int cls) { return cempty(cls) && 
 static std::string trigger_for_query(const Query& q, const Grid& before, int cls, const std::string& got, const std::string& want) {
   const std::string& n = q.name;
   if (name_is(n, "relation_with(grid ") || name_is(n, "relation_with(poly ")) return unmarked_empty(before, cls) ? "receiver_empty_but_not_marked" : "none";
+  if (n == "is_discrete") {
+    if (before.status.test_g_up_to_date() && !before.status.test_empty() && before.gen_sys.begin() != before.gen_sys.end() && before.gen_sys.begin()->is_line()) return "stored_generator_row_0_is_a_line";
+    return "none";
+  }
+  if (name_is(n, "relation_with(") && (n.find(" mod ") != std::string::npos || n.find("==0)") != std::string::npos) && param_precedes_first_point(before))
+    return "a_parameter_precedes_the_first_point_of_the_generator_system";
   if (name_is(n, "relation_with(") && n.find(" mod ") != std::string::npos)
     return updated_gens_divisor_ne_1(before, false) ? "proper_congruence_and_generator_divisor_ne_1" : "none";
   if (name_is(n, "relation_with(") && n.find(">0)") != std::string::npos && n.find(">=0)") == std::string::npos) {
@@ -1487,6 +1503,203 @@ static void run_ctors(int chunk, long long& sub, long long sub_start) {
   }
 }
 
+// ------------------------------------------------------------------ high-dimension family (dimension 4..6)
+// The explorer above stops at dimension 3; the triangular reductions (Grid::simplify, conversion, reduce_reduced) walk
+// dim_kinds patterns such as "parameter, virtual, virtual, parameter, line" that need >= 5 dimensions.  This family is
+// exhaustive over: every system of a point plus <= 4 generators drawn from a menu (unit vectors e_i, k*e_i,
+// e_i + 7*e_j, each as parameter and as line), and dually every system of <= 4 congruences over the rows
+// (e_i, e_j - 7*e_i, e_0 + e_1) as equality / mod 1 / mod 3; each built by the constructor and incrementally with a
+// minimisation in between, then judged by the same value oracle and by a query list over 5-dimensional arguments.
+struct HDCase { int dim; bool from_cons; bool incremental; std::vector<GG> gens; std::vector<CG> cons; std::string name; };
+static std::vector<HDCase> HD;
+static std::vector<std::vector<Query> > HDQ(8);     // per dimension
+static const int HD_CHUNKS = 64;
+
+static std::vector<long> hvec(int dim, std::initializer_list<std::pair<int, long> > es) { std::vector<long> v(dim, 0); for (auto& e : es) if (e.first < dim) v[e.first] = e.second; return v; }
+static GG hgg(char t, const std::vector<long>& v, long d = 1) { GG g; g.t = t; g.v = v; g.d = d; return g; }
+static CG hcg(const std::vector<long>& a, long b, long m) { LE e; e.a = a; e.b = b; return CG(e, m); }
+
+static void build_hd() {
+  bool TH = ARGS.thorough();
+  std::vector<int> dims = TH ? std::vector<int>{4, 5, 6} : std::vector<int>{5};
+  if (ARGS.has("--no-hd")) return;
+  for (int dim : dims) {
+    int L = dim - 1;
+    std::vector<std::vector<long> > vecs;
+    for (int i = 0; i < dim; ++i) vecs.push_back(hvec(dim, {{i, 1}}));
+    vecs.push_back(hvec(dim, {{L, 3}})); vecs.push_back(hvec(dim, {{2, 2}}));
+    vecs.push_back(hvec(dim, {{0, 1}, {L, 7}})); vecs.push_back(hvec(dim, {{1, 1}, {L - 1, 7}})); vecs.push_back(hvec(dim, {{0, 1}, {1, 1}}));
+    std::vector<GG> menu;
+    for (size_t i = 0; i < vecs.size(); ++i) { menu.push_back(hgg('q', vecs[i])); menu.push_back(hgg('l', vecs[i])); }
+    std::vector<GG> points = { hgg('p', hvec(dim, {})), hgg('p', hvec(dim, {{0, 1}, {L, 1}}), 2) };
+    if (TH) points.push_back(hgg('p', hvec(dim, {{1, -1}, {2, 2}}), 3));
+    int maxg = (dim == 5 || !TH) ? 4 : 3;
+    // all subsets of size <= maxg of the menu (never the same vector as parameter and as line)
+    std::vector<int> idx;
+    std::function<void(int)> rec = [&](int from) {
+      for (size_t pi = 0; pi < points.size(); ++pi) for (int inc = 0; inc < 2; ++inc) {
+        if (inc && !TH && ((idx.size() + (idx.empty() ? 0 : idx[0]) + pi) % 3) != 0) continue;      // incremental variant: every case in thorough, a third in quick
+        HDCase c; c.dim = dim; c.from_cons = false; c.incremental = inc;
+        // the point is not always the first row
+        for (size_t k = 0; k < idx.size(); ++k) { if (k == (idx.size() > 1 ? 1u : 0u)) c.gens.push_back(points[pi]); c.gens.push_back(menu[idx[k]]); }
+        if (idx.empty() || c.gens.size() == idx.size()) c.gens.insert(c.gens.begin(), points[pi]);
+        if (inc) { // incremental insertion needs the point first
+          for (size_t k = 0; k < c.gens.size(); ++k) if (c.gens[k].t == 'p') { std::swap(c.gens[0], c.gens[k]); break; } }
+        c.name = std::string(inc ? "dim" : "Grid(gens) dim") + std::to_string(dim) + (inc ? " incremental" : "") + " {";
+        for (size_t k = 0; k < c.gens.size(); ++k) c.name += (k ? "," : "") + c.gens[k].str();
+        c.name += "}";
+        HD.push_back(c);
+      }
+      if ((int)idx.size() == maxg) return;
+      for (int i = from; i < (int)menu.size(); ++i) {
+        bool clash = false; for (int j : idx) if (j / 2 == i / 2) clash = true;
+        if (clash) continue;
+        idx.push_back(i); rec(i + 1); idx.pop_back();
+      }
+    };
+    rec(0);
+    // congruence systems
+    std::vector<std::vector<long> > rows;
+    for (int i = 0; i < dim; ++i) rows.push_back(hvec(dim, {{i, 1}}));
+    rows.push_back(hvec(dim, {{L, 1}, {0, -7}})); rows.push_back(hvec(dim, {{L - 1, 1}, {1, -7}})); rows.push_back(hvec(dim, {{0, 1}, {1, 1}}));
+    std::vector<CG> cmenu;
+    for (size_t i = 0; i < rows.size(); ++i) { cmenu.push_back(hcg(rows[i], 0, 0)); cmenu.push_back(hcg(rows[i], 0, 1)); cmenu.push_back(hcg(rows[i], 0, 3)); }
+    cmenu.push_back(hcg(hvec(dim, {{0, 2}}), -1, 2)); cmenu.push_back(hcg(hvec(dim, {{L, 1}}), -1, 0));
+    int maxc = (dim == 5 || !TH) ? 4 : 3;
+    std::vector<int> cidx;
+    std::function<void(int)> crec = [&](int from) {
+      for (int inc = 0; inc < 2; ++inc) {
+        if (inc && !TH && ((cidx.size() + (cidx.empty() ? 0 : cidx[0])) % 3) != 0) continue;
+        if (inc && cidx.empty()) continue;
+        HDCase c; c.dim = dim; c.from_cons = true; c.incremental = inc;
+        for (int j : cidx) c.cons.push_back(cmenu[j]);
+        c.name = std::string(inc ? "dim" : "Grid(cons) dim") + std::to_string(dim) + (inc ? " incremental" : "") + " {";
+        for (size_t k = 0; k < c.cons.size(); ++k) c.name += (k ? "," : "") + c.cons[k].str();
+        c.name += "}";
+        HD.push_back(c);
+      }
+      if ((int)cidx.size() == maxc) return;
+      for (int i = from; i < (int)cmenu.size(); ++i) {
+        bool clash = false; for (int j : cidx) if (j / 3 == i / 3 && i < (int)rows.size() * 3) clash = true;      // one variant per row
+        if (clash) continue;
+        cidx.push_back(i); crec(i + 1); cidx.pop_back();
+      }
+    };
+    crec(0);
+    // queries over dim-dimensional arguments
+    std::vector<Query>& QL = HDQ[dim];
+    auto simple = [&QL](const char* n, std::function<std::string(Grid&)> f, std::function<std::string(const RGrid&)> r) {
+      Query q; q.name = n; q.binary = false; q.ok = [](const Ctx&) { return true; };
+      q.run = [f](Grid& p, const Grid*) { return f(p); };
+      q.expect = [r](const RGrid& v, const RGrid*) { return r(v); };
+      QL.push_back(q); };
+    auto tf = [](bool b) { return std::string(b ? "true" : "false"); };
+    simple("is_universe", [tf](Grid& p) { return tf(p.is_universe()); }, [tf](const RGrid& v) { return tf(rg::is_universe(v)); });
+    simple("is_discrete", [tf](Grid& p) { return tf(p.is_discrete()); }, [tf](const RGrid& v) { return tf(rg::is_discrete(v)); });
+    simple("is_bounded", [tf](Grid& p) { return tf(p.is_bounded()); }, [tf](const RGrid& v) { return tf(rg::is_bounded(v)); });
+    simple("contains_integer_point", [tf](Grid& p) { return tf(p.contains_integer_point()); }, [tf](const RGrid& v) { return tf(rg::contains_integer_point(v)); });
+    simple("affine_dimension", [](Grid& p) { return std::to_string(p.affine_dimension()); }, [](const RGrid& v) { return std::to_string(rg::affine_dimension(v)); });
+    for (int v = 0; v < dim; ++v) {
+      Query q; q.name = std::string("constrains(") + char('A' + v) + ")"; q.binary = false; q.ok = [](const Ctx&) { return true; };
+      q.run = [v, tf](Grid& p, const Grid*) { return tf(p.constrains(Variable(v))); };
+      q.expect = [v, tf](const RGrid& c, const RGrid*) { return tf(rg::constrains(c, v)); };
+      QL.push_back(q);
+    }
+    std::vector<GG> rgm = { hgg('p', hvec(dim, {{0, 1}, {L, 7}}), 4), hgg('p', hvec(dim, {{0, 1}, {L, 1}}), 4), hgg('p', hvec(dim, {})), hgg('p', hvec(dim, {{1, 1}, {L, 3}})),
+                            hgg('l', hvec(dim, {{0, 1}, {L, 7}})), hgg('l', hvec(dim, {{0, 1}, {L, 1}})), hgg('l', hvec(dim, {{2, 1}})), hgg('q', hvec(dim, {{1, 1}})), hgg('q', hvec(dim, {{L, 1}})), hgg('q', hvec(dim, {{L, 3}}), 2) };
+    for (size_t i = 0; i < rgm.size(); ++i) {
+      GG g = rgm[i];
+      Query q; q.name = "relation_with(grid " + g.str() + ")"; q.binary = false; q.ok = [](const Ctx&) { return true; };
+      q.run = [g](Grid& p, const Grid*) { return std::string(p.relation_with(g.ppl(p.space_dimension())).implies(PPL::Poly_Gen_Relation::subsumes()) ? "subsumes" : "nothing"); };
+      q.expect = [g](const RGrid& v, const RGrid*) { return std::string(rg::subsumes(v, g.t, g.vec(v.n)) ? "subsumes" : "nothing"); };
+      QL.push_back(q);
+    }
+    std::vector<CG> rcm = { hcg(hvec(dim, {{L, 1}, {0, -7}}), 0, 3), hcg(hvec(dim, {{L, 1}, {0, -1}}), 0, 3), hcg(hvec(dim, {{1, 1}}), 0, 1), hcg(hvec(dim, {{2, 1}}), 0, 0), hcg(hvec(dim, {{L - 1, 1}}), 0, 0),
+                            hcg(hvec(dim, {{L, 1}}), 0, 3), hcg(hvec(dim, {{0, 2}, {1, 1}}), -1, 2), hcg(hvec(dim, {{L - 1, 1}, {1, -7}}), 0, 1) };
+    for (size_t i = 0; i < rcm.size(); ++i) {
+      CG c = rcm[i];
+      Query q; q.name = "relation_with(" + c.str() + ")"; q.binary = false; q.ok = [](const Ctx&) { return true; };
+      q.run = [c](Grid& p, const Grid*) { return rel_con_str(p.relation_with(c.ppl())); };
+      q.expect = [c](const RGrid& v, const RGrid*) { return ref_rel_cong(v, c.ref(v.n)); };
+      QL.push_back(q);
+    }
+    { LE e; e.a = hvec(dim, {{L, 1}, {0, -7}}); e.b = 0;
+      Query q; q.name = "frequency(" + e.str() + ")"; q.binary = false; q.ok = [](const Ctx&) { return true; };
+      q.run = [e](Grid& p, const Grid*) {
+        Coefficient fn, fd, vn, vd;
+        if (!p.frequency(e.ppl(), fn, fd, vn, vd)) return std::string("false");
+        if (fd == 0 || vd == 0) return std::string("true,zero-denominator");
+        Q f(to_q(fn).get_num(), to_q(fd).get_num()); f.canonicalize(); Q v(to_q(vn).get_num(), to_q(vd).get_num()); v.canonicalize();
+        return "true,freq=" + qs(f) + ",val=" + qs(v); };
+      q.expect = [e](const RGrid& v, const RGrid*) {
+        rg::Freq fr = rg::frequency(v, levec(e, v.n), Q(e.b));
+        if (!fr.defined) return std::string("false");
+        Q c = rg::closest_to_zero(fr.v0, fr.f);
+        std::string s = "true,freq=" + qs(fr.f) + ",val=" + qs(c);
+        if (fr.f != 0 && c * 2 == fr.f) s += "||true,freq=" + qs(fr.f) + ",val=" + qs(Q(-c));
+        return s; };
+      QL.push_back(q); }
+  }
+}
+
+static RGrid hd_expect(const HDCase& c) {
+  if (c.from_cons) { RGrid g = RGrid::universe(c.dim); for (size_t i = 0; i < c.cons.size(); ++i) g = rg::add_congruence(g, c.cons[i].ref(c.dim)); return g; }
+  Mat pts, params, lines;
+  for (size_t i = 0; i < c.gens.size(); ++i) (c.gens[i].t == 'p' ? pts : c.gens[i].t == 'q' ? params : lines).push_back(c.gens[i].vec(c.dim));
+  return rg::from_generators(c.dim, pts, params, lines);
+}
+static Grid* hd_build(const HDCase& c) {
+  if (c.from_cons) {
+    if (!c.incremental) { PPL::Congruence_System cs; for (size_t i = 0; i < c.cons.size(); ++i) cs.insert(c.cons[i].ppl()); cs.insert((0 * Variable(c.dim - 1) %= 0) / 1); return new Grid(cs); }
+    Grid* g = new Grid(c.dim);
+    for (size_t i = 0; i < c.cons.size(); ++i) { g->add_congruence(c.cons[i].ppl()); if (i == 1) (void)g->minimized_grid_generators(); if (i == 2) (void)g->minimized_congruences(); }
+    return g;
+  }
+  if (!c.incremental) { PPL::Grid_Generator_System gs; for (size_t i = 0; i < c.gens.size(); ++i) gs.insert(c.gens[i].ppl(c.dim)); return new Grid(gs); }
+  Grid* g = new Grid(c.dim, PPL::EMPTY);
+  for (size_t i = 0; i < c.gens.size(); ++i) { g->add_grid_generator(c.gens[i].ppl(c.dim)); if (i == 1) (void)g->minimized_congruences(); if (i == 2) (void)g->minimized_grid_generators(); }
+  return g;
+}
+static std::string hd_site(const HDCase& c) {
+  if (c.incremental) return c.from_cons ? "Grid::add_congruence" : "Grid::add_grid_generator";
+  return c.from_cons ? "Grid::Grid(const Congruence_System&)" : "Grid::Grid(const Grid_Generator_System&)";
+}
+static void run_hd(int chunk, long long& sub, long long sub_start) {
+  size_t lo = HD.size() * chunk / HD_CHUNKS, hi = HD.size() * (chunk + 1) / HD_CHUNKS;
+  for (size_t i = lo; i < hi; ++i) {
+    long long my = sub++;
+    if (!pool().want(my, sub_start)) continue;
+    pool().step(my);
+    const HDCase& c = HD[i];
+    std::string site = hd_site(c);
+    std::string inj = J().str("hd_case", c.name).done();
+    GP g;
+    try { g.reset(hd_build(c)); }
+    catch (const std::exception& ex) { count(CNT_TRANS); if (violcap().admit(site + "|exc")) report_violation(site, "unexpected-exception", "none", inj, ex.what(), "no exception"); continue; }
+    count(CNT_TRANS, 1 + (c.from_cons ? c.cons.size() : c.gens.size())); count(CNT_STATES);
+    int want;
+    { RefGuard guard; want = CL.classify(hd_expect(c)); }
+    // queries first, each on a clone of the freshly built object and on a clone of the observed one
+    GP observed(clone(*g));
+    (void)observed->minimized_grid_generators(); (void)observed->minimized_congruences();
+    const std::vector<Query>& QL = HDQ[c.dim];
+    for (size_t qi = 0; qi < QL.size(); ++qi) for (int obs = 0; obs < 2; ++obs) {
+      GP p(clone(obs ? *observed : *g));
+      std::string got;
+      try { got = QL[qi].run(*p, 0); } catch (const std::exception& ex) { got = std::string("exception:") + ex.what(); }
+      count(CNT_TRANS); count(CNT_CHECKS);
+      std::string want_s; { RefGuard guard; want_s = QL[qi].expect(CL[want], 0); }
+      if (!matches(got, want_s)) {
+        std::string qsite = site_of(QL[qi].name);
+        std::string trig = trigger_for_query(QL[qi], obs ? *observed : *g, want, got, want_s);
+        if (violcap().admit("hd|" + qsite + "|" + trig))
+          report_violation(qsite, "query:answer!=model", trig, J().str("hd_case", c.name).str("op", QL[qi].name).str("after_minimization", obs ? "yes" : "no").str("receiver_value", cstr(want)).done(), got, want_s);
+      }
+    }
+    check_value(*g, want, site, "none", inj);
+  }
+}
+
 // ------------------------------------------------------------------ replay of one recorded violation
 static std::vector<std::string> json_string_array(const std::string& txt, const std::string& key) {
   std::vector<std::string> out;
@@ -1529,6 +1742,19 @@ static int replay(const std::string& file) {
   std::ifstream f(file.c_str()); std::stringstream ss; ss << f.rdbuf(); std::string txt = ss.str();
   std::string opname = json_string(txt, "op"), ctor = json_string(txt, "constructor");
   using namespace PPL::IO_Operators;
+  std::string hdc = json_string(txt, "hd_case");
+  if (!hdc.empty()) {
+    for (size_t i = 0; i < HD.size(); ++i) if (HD[i].name == hdc) {
+      GP g(hd_build(HD[i])); RGrid w = hd_expect(HD[i]);
+      RGrid a = value_of(g->minimized_congruences(), HD[i].dim), b; value_of(g->minimized_grid_generators(), HD[i].dim, b);
+      std::cout << "high-dimension case " << hdc << "\n  implementation: congruences " << g->congruences() << "\n                  generators " << g->grid_generators()
+                << "\n  implementation (canonical): from congruences " << a.str() << " ; from generators " << b.str() << "\n  model:          " << w.str() << "\n";
+      if (!opname.empty()) for (size_t k = 0; k < HDQ[HD[i].dim].size(); ++k) if (HDQ[HD[i].dim][k].name == opname) {
+        GP h(hd_build(HD[i])); std::cout << "query " << opname << ": implementation " << HDQ[HD[i].dim][k].run(*h, 0) << " ; model " << HDQ[HD[i].dim][k].expect(w, 0) << "\n"; }
+      return 0;
+    }
+    printf("unknown high-dimension case\n"); return 1;
+  }
   if (!ctor.empty()) {
     for (size_t i = 0; i < CTORS.size(); ++i) if (CTORS[i].name == ctor) {
       GP g(CTORS[i].build()); RGrid w = CTORS[i].expect();
@@ -1578,6 +1804,7 @@ int main(int argc, char** argv) {
   build_ops();
   build_queries();
   build_ctors();
+  build_hd();
   if (!ARGS.replay.empty()) return replay(ARGS.replay);
   double t0 = now_s();
   phase_a(depth_full, std::max(depth, depth_full));
@@ -1589,6 +1816,7 @@ int main(int argc, char** argv) {
   long long NG = (long long)GROUPS.size();
   Pool::Fn fn = [&](long long item, long long sub_start) {
     long long sub = 0;
+    if (item >= NG + CTOR_CHUNKS) { double t = now_s(); run_hd((int)(item - NG - CTOR_CHUNKS), sub, sub_start); if (getenv("VERIF_PROFILE")) fprintf(stderr, "hd chunk %lld %.1fs\n", item - NG - CTOR_CHUNKS, now_s() - t); return; }
     if (item >= NG) { double t = now_s(); run_ctors((int)(item - NG), sub, sub_start); if (getenv("VERIF_PROFILE")) fprintf(stderr, "ctor chunk %lld %.1fs\n", item - NG, now_s() - t); return; }
     double tg = now_s();
     for (size_t gi = 0; gi < GROUPS[item].size(); ++gi) {
@@ -1602,6 +1830,12 @@ int main(int argc, char** argv) {
   };
   Pool::CrashFn cf = [&](long long item, long long sub, int sig, bool confirmed) {
     if (!confirmed) return;
+    if (item >= NG + CTOR_CHUNKS) {
+      size_t hi_ = HD.size() * (item - NG - CTOR_CHUNKS) / HD_CHUNKS + sub;
+      std::string nm = hi_ < HD.size() ? HD[hi_].name : "?";
+      report_violation(hi_ < HD.size() ? hd_site(HD[hi_]) : std::string("Grid"), std::string("crash:") + signame(sig), "none", J().str("hd_case", nm).done(), signame(sig), "normal return");
+      return;
+    }
     if (item >= NG) {
       size_t ci = CTORS.size() * (item - NG) / CTOR_CHUNKS + sub;
       std::string nm = ci < CTORS.size() ? CTORS[ci].name : "?";
@@ -1625,19 +1859,19 @@ int main(int argc, char** argv) {
                      cj.str("receiver_value", cstr(ST[s].cls)).str("signature", ST[s].sig).str("detail", nm).done(), signame(sig), "normal return");
   };
   limit_memory(8ULL << 30);
-  pool().run(NG + CTOR_CHUNKS, ARGS.jobs, fn, cf, ARGS, 60);
+  pool().run(NG + CTOR_CHUNKS + HD_CHUNKS, ARGS.jobs, fn, cf, ARGS, 60);
   bool complete = phase_a_complete && counter(CNT_SKIPPED) == 0 && counter(CNT_REFCRASH) == 0;
   std::vector<std::string> samples;
   for (size_t i = 0; i < REPS.size(); i += std::max<size_t>(1, REPS.size() / 3)) samples.push_back(hist_json(REPS[i]));
   std::vector<std::string> sigs; for (auto& s : SIGS) sigs.push_back(jstr(s));
   J extra; extra.num("phaseA_states", ST.size()).num("phaseA_transitions", TRANS_A).num("value_classes_phaseA", CL.vals.size())
-    .num("representatives", REPS.size()).num("operand_pool", POOL.size()).num("ops", OPS.size()).num("queries", QS.size()).num("constructor_cases", CTORS.size())
+    .num("representatives", REPS.size()).num("operand_pool", POOL.size()).num("ops", OPS.size()).num("queries", QS.size()).num("constructor_cases", CTORS.size()).num("high_dimension_cases", HD.size())
     .num("oracle_comparisons", counter(CNT_CHECKS)).num("items_skipped_by_deadline", counter(CNT_SKIPPED)).num("cases_skipped_oracle_resource_limit", counter(CNT_REFCRASH))
     .boolean("phaseA_complete", phase_a_complete).arr("signatures_reached", sigs);
   J st; st.str("t", "stats").num("states", ST.size() + counter(CNT_STATES)).num("transitions", TRANS_A + counter(CNT_TRANS))
     .num("traces_validated_against_impl", TRANS_A + counter(CNT_TRANS)).boolean("exhaustive", complete)
     .str("bound", "grids of dimension 0.." + std::to_string(MAXDIM) + "; builder alphabet (" + std::to_string(CGM.size()) + " congruences, " + std::to_string(GGM.size()) + " generators, 8 observers) closed to depth "
-         + std::to_string(depth_full) + ", core alphabet to depth " + std::to_string(depth) + "; " + (all_states ? "all states" : "one representative per (value class, lazy-state signature)") + " x every query / transformer / operand of the pool")
+         + std::to_string(depth_full) + ", core alphabet to depth " + std::to_string(depth) + "; " + (all_states ? "all states" : "one representative per (value class, lazy-state signature)") + " x every query / transformer / operand of the pool; plus the exhaustive high-dimension family (dimension " + std::string(ARGS.thorough() ? "4..6" : "5") + ": a point + <= 4 menu generators, <= 4 menu congruences, built by constructor and incrementally, " + std::to_string(HD.size()) + " systems)")
     .arr("samples", samples).raw("extra", extra.done()).dbl("wall_s", now_s() - t0);
   sink().line(st.done());
   return 0;
